@@ -2,6 +2,7 @@ import RzilVerif.Model.DriverText
 import RzilVerif.Model.ILSem
 import RzilVerif.Lemmas.LayoutPerm
 import RzilVerif.Lemmas.LayoutDup
+import RzilVerif.Lemmas.LayoutPermGen
 /-!
 # C16 — both output layouts denote the same effect
 
@@ -314,6 +315,124 @@ example : denoteIL { header := none, items := exDupRS } =
 example : hoistEqualD exDupRS
     (exDupEC.map (fun i => match i with
       | .decl ty "c" _ => .decl ty "c" (.app "ULT" [.id "a", .id "Rs"])
+      | i => i)) = false := by decide +kernel
+
+/-! ### Two dependency-respecting orders of one set of declarations
+
+EXEC_CLASSES emits the pure declarations in the order the compiler CREATED them, READ_STATEMENTS next to the statement
+that consumes them; `hoistPures` of the one is then not the other.  Both texts are topological orders of the same
+declarations, and that is all that matters. -/
+
+/-- Two bodies whose inlined declarations are permutations of each other, with pairwise distinct names, neither with a
+    forward reference, and the same returned term, denote the same term. -/
+theorem perm_denote (a b : Body) (hda : namesDistinct a.items = true) (hfa : noForwardRef a.items = true)
+    (hfb : noForwardRef b.items = true) (hperm : (ilDecls a.items).Perm (ilDecls b.items))
+    (hret : returned a.items = returned b.items) : denoteIL a = denoteIL b := by
+  simp only [denoteIL, hret]
+  cases returned b.items with
+  | none => rfl
+  | some r =>
+    simp only [Option.bind_eq_bind, Option.bind_some]
+    rw [buildEnvIL_eq_envOfDecls, buildEnvIL_eq_envOfDecls]
+    rw [Term.subst_congr (envOfDecls_perm (ilDecls b.items) (ilDecls a.items) hperm
+      (pairwise_distinct_of_namesDistinct _ hda) (pairwise_noFwd_of_noForwardRef _ hfa)
+      (pairwise_noFwd_of_noForwardRef _ hfb) []) r]
+
+/-- The decidable form: `permEqual` collects the premises of `perm_denote`. -/
+theorem layout_rel_sound_perm_raw (rs ec : Body) (h : permEqual rs.items ec.items = true) :
+    denoteIL ec = denoteIL rs := by
+  simp only [permEqual, Bool.and_eq_true] at h
+  obtain ⟨⟨⟨⟨hd, hfr⟩, hfe⟩, hp⟩, hr⟩ := h
+  exact (perm_denote rs ec hd hfr hfe (isPermB_sound _ _ hp) (optTermEqb_sound _ _ hr)).symm
+
+/-- What the field `(perm-equal-dup 1)` of the driver answer buys: after erasing `DUP`, the EXEC_CLASSES text declares
+    the same inlined declarations as the READ_STATEMENTS text, in ANY order without forward references — then both
+    texts denote the same term. -/
+theorem layout_rel_sound_perm (rs ec : Body) (h : permEqualD rs.items ec.items = true) :
+    denoteIL ec = denoteIL rs := by
+  have h' := layout_rel_sound_perm_raw { rs with items := rs.items.map Item.eraseDup }
+    { ec with items := ec.items.map Item.eraseDup } h
+  rw [denoteIL_eraseDupItems, denoteIL_eraseDupItems] at h'
+  exact h'
+
+/-- The test accepts every list against itself as soon as the side conditions hold. -/
+theorem permEqual_self (items : List Item) (hd : namesDistinct items = true) (hf : noForwardRef items = true) :
+    permEqual items items = true := by
+  simp only [permEqual, hd, hf, isPermB_refl, Bool.and_true, Bool.true_and]
+  cases returned items with
+  | none => rfl
+  | some t => exact Term.eqb_refl t
+
+/-- READ_STATEMENTS order of `if (cond) { … }`: the pures of the body (`op_RSHIFT_8`) come before the pures of the
+    condition (`op_AND_3`, `op_INV_4`), which are emitted next to `branch_13`. -/
+def exPermRS : List Item :=
+  [.comment " READ",
+   .decl "const HexOp *" "Rd_op" (.app "ISA2REG" [.id "hi", .chr "d", .id "false"]),
+   .decl "RzILOpPure *" "op_RSHIFT_8" (.app "SHIFTR0" [.id "Rs", .app "SN" [.num 32, .num 1]]),
+   .decl "RzILOpEffect *" "op_ASSIGN_9" (.app "WRITE_REG" [.id "bundle", .id "Rd_op", .id "op_RSHIFT_8"]),
+   .decl "RzILOpEffect *" "nop_10" (.app "NOP" []),
+   .decl "RzILOpEffect *" "seq_then_11" (.id "op_ASSIGN_9"),
+   .decl "RzILOpEffect *" "seq_else_12" (.id "nop_10"),
+   .decl "RzILOpPure *" "op_AND_3" (.app "LOGAND" [.id "Rt", .app "SN" [.num 32, .num 1]]),
+   .decl "RzILOpPure *" "op_INV_4" (.app "INV" [.app "NON_ZERO" [.id "op_AND_3"]]),
+   .decl "RzILOpEffect *" "branch_13" (.app "BRANCH" [.id "op_INV_4", .id "seq_then_11", .id "seq_else_12"]),
+   .ret (.id "branch_13")]
+
+/-- EXEC_CLASSES order: the pures in creation order (`op_AND_3`, `op_INV_4`, `op_RSHIFT_8`), then the effects. -/
+def exPermEC : List Item :=
+  [.comment " EXEC",
+   .decl "RzILOpPure *" "op_AND_3" (.app "LOGAND" [.id "Rt", .app "SN" [.num 32, .num 1]]),
+   .decl "RzILOpPure *" "op_INV_4" (.app "INV" [.app "NON_ZERO" [.id "op_AND_3"]]),
+   .decl "RzILOpPure *" "op_RSHIFT_8" (.app "SHIFTR0" [.id "Rs", .app "SN" [.num 32, .num 1]]),
+   .comment " WRITE",
+   .decl "const HexOp *" "Rd_op" (.app "ISA2REG" [.id "hi", .chr "d", .id "false"]),
+   .decl "RzILOpEffect *" "op_ASSIGN_9" (.app "WRITE_REG" [.id "bundle", .id "Rd_op", .id "op_RSHIFT_8"]),
+   .decl "RzILOpEffect *" "nop_10" (.app "NOP" []),
+   .decl "RzILOpEffect *" "seq_then_11" (.id "op_ASSIGN_9"),
+   .decl "RzILOpEffect *" "seq_else_12" (.id "nop_10"),
+   .decl "RzILOpEffect *" "branch_13" (.app "BRANCH" [.id "op_INV_4", .id "seq_then_11", .id "seq_else_12"]),
+   .ret (.id "branch_13")]
+
+example : LayoutWF exPermRS = true := by decide +kernel
+example : hoistEqualD exPermRS exPermEC = false := by decide +kernel
+example : permEqual exPermRS exPermEC = true := by decide +kernel
+example : permEqualD exPermRS exPermEC = true := by decide +kernel
+
+example : denoteIL { header := none, items := exPermEC } = denoteIL { header := none, items := exPermRS } :=
+  layout_rel_sound_perm { header := none, items := exPermRS } { header := none, items := exPermEC } (by decide +kernel)
+
+/-- … and the common denotation is a genuine term. -/
+example : denoteIL { header := none, items := exPermRS } =
+    some (.app "BRANCH" [.app "INV" [.app "NON_ZERO" [.app "LOGAND" [.id "Rt", .app "SN" [.num 32, .num 1]]]],
+      .app "WRITE_REG" [.id "bundle", .id "Rd_op", .app "SHIFTR0" [.id "Rs", .app "SN" [.num 32, .num 1]]],
+      .app "NOP" []]) := by rfl
+
+/-- `permEqual` rejects an order with a forward reference (`op_INV_4` in front of `op_AND_3`) — and rightly so: that
+    text leaves `op_AND_3` un-inlined. -/
+def exPermBad : List Item :=
+  [.decl "RzILOpPure *" "op_INV_4" (.app "INV" [.app "NON_ZERO" [.id "op_AND_3"]]),
+   .decl "RzILOpPure *" "op_AND_3" (.app "LOGAND" [.id "Rt", .app "SN" [.num 32, .num 1]]),
+   .decl "RzILOpEffect *" "branch_13" (.app "BRANCH" [.id "op_INV_4", .app "NOP" [], .app "NOP" []]),
+   .ret (.id "branch_13")]
+def exPermGood : List Item :=
+  [.decl "RzILOpPure *" "op_AND_3" (.app "LOGAND" [.id "Rt", .app "SN" [.num 32, .num 1]]),
+   .decl "RzILOpPure *" "op_INV_4" (.app "INV" [.app "NON_ZERO" [.id "op_AND_3"]]),
+   .decl "RzILOpEffect *" "branch_13" (.app "BRANCH" [.id "op_INV_4", .app "NOP" [], .app "NOP" []]),
+   .ret (.id "branch_13")]
+
+example : permEqual exPermGood exPermBad = false ∧ isPermB (ilDecls exPermGood) (ilDecls exPermBad) = true ∧
+    noForwardRef exPermBad = false := by decide +kernel
+example : denoteIL { header := none, items := exPermBad } ≠ denoteIL { header := none, items := exPermGood } := by
+  intro h
+  have h' : some (Term.app "BRANCH" [.app "INV" [.app "NON_ZERO" [.id "op_AND_3"]], .app "NOP" [], .app "NOP" []]) =
+      some (Term.app "BRANCH" [.app "INV" [.app "NON_ZERO" [.app "LOGAND" [.id "Rt", .app "SN" [.num 32, .num 1]]]],
+        .app "NOP" [], .app "NOP" []]) := h
+  simp at h'
+
+/-- … and another right-hand side under the same name. -/
+example : permEqualD exPermRS
+    (exPermEC.map (fun i => match i with
+      | .decl ty "op_AND_3" _ => .decl ty "op_AND_3" (.app "LOGAND" [.id "Rt", .app "SN" [.num 32, .num 2]])
       | i => i)) = false := by decide +kernel
 
 end Rzil
